@@ -506,7 +506,91 @@ func c11Kinds(r *Run, idx int) {
 	r.Distinct(fmt.Sprintf("kinds/%s/M%d", kind, M))
 }
 
+// c11DeadlineRightAfterLoad: a cache that has been up for a while (its clock origin lies d back) saves entries whose
+// deadlines fall a few hundred milliseconds after the load. The loaded cache adopts the saved origin; from that
+// moment its clock says "d + a little", and a Get issued once the clock has passed an entry's restored deadline
+// must miss - also within the first second after the load, before any maintenance tick has run in the new cache.
+// Real time is used (virtual time would refresh what is being tested); timing decides only whether the window
+// is reached, never the verdict: the deadline is compared with the cache's own clock read before the Get.
+func c11DeadlineRightAfterLoad(r *Run, idx int) {
+	rng := r.Rng(int64(11700 + idx))
+	src, err := theine.NewBuilder[int, int64](1000).Build()
+	if err != nil {
+		r.Broken("build: %v", err)
+		return
+	}
+	defer src.Close()
+	uptime := []time.Duration{2 * time.Minute, 3 * time.Hour, 40 * 24 * time.Hour}[rng.Intn(3)]
+	src.VerifStore().VerifShiftClock(uptime, true)
+	src.VerifStore().VerifRefreshClock()
+	n := 24
+	for k := 0; k < n; k++ {
+		src.SetWithTTL(k, int64(k)+1, 1, time.Duration(150+k*25)*time.Millisecond)
+	}
+	src.Wait()
+	var buf bytes.Buffer
+	if err := src.SaveCache(2, &buf); err != nil {
+		r.Broken("save: %v", err)
+		return
+	}
+	dst, err := theine.NewBuilder[int, int64](1000).Build()
+	if err != nil {
+		r.Broken("build: %v", err)
+		return
+	}
+	defer dst.Close()
+	if err := dst.LoadCache(2, &buf); err != nil {
+		r.Broken("load: %v", err)
+		return
+	}
+	st := dst.VerifStore()
+	deadline := map[int]int64{}
+	for _, e := range st.VerifSnapshot().Map {
+		deadline[e.Key] = e.Expire
+	}
+	served, judged, lagging := 0, 0, 0
+	var first string
+	for k := 0; k < n; k++ {
+		d, ok := deadline[k]
+		if !ok || d == 0 {
+			continue
+		}
+		for i := 0; i < 20000 && st.VerifNowNano() < d; i++ {
+			time.Sleep(100 * time.Microsecond)
+		}
+		now := st.VerifNowNano()
+		if now < d {
+			continue
+		}
+		lag := now - st.VerifNowCached()
+		v, hit := dst.Get(k)
+		judged++
+		if lag > int64(500*time.Millisecond) {
+			lagging++
+		}
+		if hit {
+			served++
+			if first == "" {
+				first = fmt.Sprintf("Get(%d) returned %d although the cache's clock (%d) had passed the restored deadline (%d) by %.1f ms; its cached clock was %.3f s behind", k, v, now, d, float64(now-d)/1e6, float64(lag)/1e9)
+			}
+		}
+	}
+	if served > 0 {
+		r.Violate("served-expired/right-after-loadcache", fmt.Sprintf("round %d (saving cache up for %v): %d of %d entries were served by Get after their restored deadline, within the first second after LoadCache (first: %s)", idx, uptime, served, judged, first),
+			map[string]any{"round": idx, "uptime_of_the_saving_cache": uptime.String(), "served": served, "judged": judged})
+	}
+	r.Eval(1)
+	r.Count("gets_after_a_restored_deadline", int64(judged))
+	r.Count("of_them_with_the_cached_clock_more_than_half_a_second_behind", int64(lagging))
+	r.Distinct(fmt.Sprintf("deadline-right-after-load/%v", uptime))
+}
+
 func runC11(r *Run) {
+	for i := 0; i < r.Pick(8, 64); i++ {
+		if i%r.NShards == r.Shard {
+			c11DeadlineRightAfterLoad(r, i)
+		}
+	}
 	r.Rule("case = one round trip: a cache filled by a generated workload (uniform / recency-biased / frequency-biased / alternating phases, so the adaptive window-protected split moves), saved with the real SaveCache after d of virtual time, loaded with the real LoadCache into a cache of the same / larger / smaller MaxSize, regions compared element by element. Non-trivial = every round trip; distinct by (types, split moved, cost mix, TTL mix, target ratio, elapsed class)")
 	r.Assume("virtual time between save and load = the saver's clock origin moved back just before saving (the loader adopts it)",
 		"a round in which a maintenance tick changed the saved cache between the reference snapshot and the save is discarded as inconclusive")
